@@ -32,5 +32,6 @@ FreshCount == [][\A t \in Threads :
                     /\ cur'[t].f # "none" /\ "verifier" \in cur'[t].done) => ctr'[cur[t].site] = 0]_vars
 \* C05/C09: a refused installation modifies nothing
 RefusedUntouched == [][\A t \in Threads :
-                   (cur[t].f # "none" /\ cur[t].gate # "ok") => (code' = code /\ tramp' = tramp)]_vars
+                   (cur[t].f # "none" /\ cur[t].gate # "ok") =>
+                       (code' = code /\ (tramp' = tramp \/ \E id \in TrampIds : tramp'[id].state = "foreign" /\ tramp[id].state # "foreign"))]_vars
 =============================================================================
